@@ -58,6 +58,7 @@ type sess struct {
 	manifests map[string][]string // manifest chunk file id -> data chunk file ids
 	expiredPresent bool           // C19: an enumeration is under way during which entries expired
 	zombies        map[string]bool // directories that may still physically hold entries the model has expired
+	chunkRun       bool            // C36: files carry real chunk bytes on replicated stub volume servers
 	curFired       string          // store call that was failed inside the current operation ("" = none)
 	excusedOrphans map[string]bool // entries left under a deleted parent by ignore_recursive_error + injected store failure
 	sigs           []int32         // signatures the next request carries (C36: a change that came from the target cluster)
@@ -330,6 +331,9 @@ func (s *sess) step(st *simkit.Step) bool {
 func (s *sess) doWrite(st *simkit.Step) {
 	p := st.Str("p")
 	want, ext := s.snapFromStep(st, p)
+	if s.chunkRun && !want.IsDir {
+		s.addDataChunks(st, want)
+	}
 	keep := st.Int("keep") == 1
 	oexcl := st.Int("excl") == 1
 	dir, _ := split(p)
